@@ -5,9 +5,9 @@ package session
 import (
 	"bytes"
 
-	"github.com/lugu/qiloop/bus/net"
 	"context"
 	"errors"
+	"github.com/lugu/qiloop/bus/net"
 	"io"
 	"sync"
 )
@@ -16,18 +16,18 @@ import (
 // io.Reader / io.Writer contracts. Incoming bytes are injected by the harness (chunk by chunk),
 // outgoing bytes are captured per Write call.
 type zzStream struct {
-	in      chan []byte
-	pending []byte
-	closed  chan struct{}
-	once    sync.Once
-	mu      sync.Mutex
-	out     []byte
-	writes  int
-	failAt  int // fail the k-th Write (1-based) when > 0
-	eof     bool
-	onWrite func(p []byte) // called (outside the stream lock) before Write returns
-	closeErr    bool // Close reports an error (the connection is closed nevertheless)
-	blockWrites int  // when > 0: the n-th Write (1-based) and later ones block until the stream is closed
+	in          chan []byte
+	pending     []byte
+	closed      chan struct{}
+	once        sync.Once
+	mu          sync.Mutex
+	out         []byte
+	writes      int
+	failAt      int // fail the k-th Write (1-based) when > 0
+	eof         bool
+	onWrite     func(p []byte) // called (outside the stream lock) before Write returns
+	closeErr    bool           // Close reports an error (the connection is closed nevertheless)
+	blockWrites int            // when > 0: the n-th Write (1-based) and later ones block until the stream is closed
 }
 
 var errZZClosed = errors.New("use of closed connection")
